@@ -1,6 +1,7 @@
 // `world` engine: blocking signing / extending (and the blocking TCP reader) against the reference aggregator / extender
 // with per-call environment scripts.  Serves C07, C08, C06 (tamper sweep), C14 (blocking reader).
 #include "eng/bworld.h"
+#include "eng/asyncsim.h"
 #include "run/plan.h"
 #include "sim/kernel.h"
 #include <algorithm>
@@ -25,7 +26,14 @@ struct Src {
 
 static const int64_t EPOCHS_S[] = {1600000000LL, 1700000000LL, 2147483000LL, 4294967000LL, 1500100000LL};
 
+struct WorldSim;
+static WorldSim *g_wcur = nullptr;
+static int w_conf_cb(KSI_CTX *, KSI_Config *c);
+
 struct WorldSim {
+	struct ConfEv { uint64_t seq; ConfVals cv; };
+	std::vector<ConfEv> conf_events;       // configurations handed to the context's configuration callback
+	size_t conf_checked = 0;
 	const run::Plan &plan;
 	KSI_CTX *ctx = nullptr;
 	BlockingWorld bw;
@@ -54,6 +62,11 @@ struct WorldSim {
 		connect_to = (int)plan.c("connect_to", 10);
 		KSI_CTX_setTransferTimeoutSeconds(ctx, transfer_to);
 		KSI_CTX_setConnectionTimeoutSeconds(ctx, connect_to);
+		g_wcur = this;
+		if (plan.c("conf_cb", 0)) {
+			KSI_CTX_setOption(ctx, KSI_OPT_AGGR_CONF_RECEIVED_CALLBACK, (void *)w_conf_cb);
+			KSI_CTX_setOption(ctx, KSI_OPT_EXT_CONF_RECEIVED_CALLBACK, (void *)w_conf_cb);
+		}
 		// a few signatures made by the reference world: with / without calendar chain
 		for (int i = 0; i < 3; i++) {
 			ReplyMeta m;
@@ -76,6 +89,22 @@ struct WorldSim {
 		pool.clear();
 		if (ctx) KSI_CTX_free(ctx);
 		ctx = nullptr;
+		g_wcur = nullptr;
+	}
+
+	// C06: a configuration reaches the configuration callback of a blocking call only from the authentic reply of that call
+	void check_conf_events(size_t served0, bool is_ext) {
+		for (; conf_checked < conf_events.size(); conf_checked++) {
+			const ConfEv &ce = conf_events[conf_checked];
+			bool ok = false;
+			const EndpointCfg &cfg = is_ext ? bw.ext : bw.aggr;
+			for (size_t i = served0; i < bw.served.size(); i++) {
+				const RespInfo &ri = bw.served[i].reply_info;
+				if (!bw.served[i].reply.empty() && ri.authentic(cfg.mac_alg) && ri.ver == cfg.pdu_ver && ri.is_ext == is_ext && ri.has_conf && conf_eq(ri.conf, ce.cv)) ok = true;
+			}
+			K.count("probe.blocking_conf_callback");
+			if (!ok) K.fail("C06", "configuration-from-unauthentic-pdu", "blocking-callback", "the configuration callback of a blocking call was given a configuration that no authentic reply of this call carries");
+		}
 	}
 
 	CallEnv env_from(const run::Op &op, size_t base) {
@@ -152,6 +181,7 @@ struct WorldSim {
 		bw.disarm();
 		after_call("sign", served0, transfer_to > 0);
 		check_fault_error("sign", res, bw.aggr_http);
+		check_conf_events(served0, false);
 		K.count(res == KSI_OK ? "outcome.sign_ok" : "outcome.sign_error");
 		const ServedRequest *sr = bw.served.size() > served0 ? &bw.served[served0] : nullptr;
 		if (bw.served.size() > served0 + 1) K.fail("C07", "request-sent-twice", "blocking", "one signing call produced %zu requests", bw.served.size() - served0);
@@ -264,6 +294,7 @@ struct WorldSim {
 		bw.disarm();
 		after_call("extend", served0, transfer_to > 0);
 		check_fault_error("extend", res, bw.ext_http);
+		check_conf_events(served0, true);
 		K.count(res == KSI_OK ? "outcome.extend_ok" : "outcome.extend_error");
 		if (to) KSI_Integer_free(to);
 		const ServedRequest *sr = bw.served.size() > served0 ? &bw.served[served0] : nullptr;
@@ -320,16 +351,78 @@ struct WorldSim {
 		if (prec) KSI_PublicationRecord_free(prec);
 	}
 
+	// blocking configuration request (KSI_receiveAggregatorConfig / KSI_receiveExtenderConfig)
+	void op_config(const run::Op &op, int tamper_bit = -1) {
+		bool is_ext = op.arg(0) % 2 == 1;
+		CallEnv e = env_from(op, 2);
+		if (e.fault == 4) e.fault = 3;    // the request is smaller than any send buffer
+		e.tamper_bit = tamper_bit;
+		const EndpointCfg &cfg = is_ext ? bw.ext : bw.aggr;
+		bool http = is_ext ? bw.ext_http : bw.aggr_http;
+		bw.arm(e);
+		note_call_faults(e);
+		size_t served0 = bw.served.size();
+		KSI_Config *conf = (KSI_Config *)(uintptr_t)0x5151;
+		K.api_begin("config");
+		int res = is_ext ? KSI_receiveExtenderConfig(ctx, &conf) : KSI_receiveAggregatorConfig(ctx, &conf);
+		K.ev("CONFIG %s -> 0x%x", is_ext ? "ext" : "aggr", res);
+		bw.disarm();
+		after_call("config", served0, transfer_to > 0);
+		check_fault_error("config", res, http);
+		check_conf_events(served0, is_ext);
+		K.count(res == KSI_OK ? "outcome.config_ok" : "outcome.config_error");
+		const ServedRequest *sr = bw.served.size() > served0 ? &bw.served[served0] : nullptr;
+		if (bw.served.size() > served0 + 1) K.fail("C07", "request-sent-twice", "blocking-config", "one configuration call produced %zu requests", bw.served.size() - served0);
+		if (is_ext && cfg.pdu_ver == 1) {
+			if (res == KSI_OK || sr) K.fail("C06", "configuration-over-version-1", "blocking", "an extender configuration request was made although PDU version 1 has none (0x%x)", res);
+			if (res == KSI_OK && conf && conf != (KSI_Config *)(uintptr_t)0x5151) KSI_Config_free(conf);
+			return;
+		}
+		if (sr) {
+			const ReqInfo &ri = sr->info;
+			if (!ri.framed || ri.ver == 0) K.fail("C14", "outgoing-stream-not-pdu-aligned", "blocking-config", "the blocking client wrote something that is not a request PDU");
+			else {
+				if (ri.ver != cfg.pdu_ver) K.fail("C06", "request-wrong-version", "blocking-config", "request framed as version %d, configured %d", ri.ver, cfg.pdu_ver);
+				if (!ri.has_header || !ri.has_mac) K.fail("C06", "request-without-header-or-mac", "blocking-config", "request lacks header or MAC");
+				else if (!ri.mac_ok || ri.mac_alg != cfg.mac_alg) K.fail("C06", "request-mac-wrong", "blocking-config", "request MAC does not verify under the endpoint key / configured algorithm (alg %d)", ri.mac_alg);
+				if (ri.login != cfg.login) K.fail("C07", "request-login-changed", "blocking-config", "login id on the wire differs from the configured one");
+			}
+		}
+		if (res == KSI_OK) {
+			if (conf == (KSI_Config *)(uintptr_t)0x5151) { K.fail("C06", "success-without-configuration", "blocking", "the configuration call returned KSI_OK without writing its output"); return; }
+			// KSI_OK with a NULL configuration is what the call reports when the (authentic) reply carries none - e.g. a version-1
+			// response with an error status; no content is delivered, so C06 only asks that the reply was authentic
+			bool none = conf == nullptr;
+			ConfVals got = none ? ConfVals() : read_config(conf);
+			KSI_Config_free(conf);
+			if (none) K.count("probe.config_ok_without_configuration");
+			if (!sr || sr->reply.empty()) K.fail("C06", "configuration-without-reply", "blocking", "the configuration call succeeded although the server sent no reply");
+			else {
+				const RespInfo &ri = sr->reply_info;
+				bool auth = ri.authentic(cfg.mac_alg) && ri.ver == cfg.pdu_ver && ri.is_ext == is_ext;
+				if (none && auth && !ri.has_error && !ri.has_conf) ;
+				else if (!auth || ri.has_error || !ri.has_conf || none) K.fail("C06", "configuration-from-unauthentic-pdu", behav_name(sr->meta.behav), "the configuration call succeeded on a reply that is not an authentic configuration PDU (behaviour %s%s)", behav_name(sr->meta.behav), tamper_bit >= 0 ? ", bit flipped in flight" : "");
+				else if (!conf_eq(ri.conf, got)) K.fail("C06", "configuration-content-mismatch", "blocking", "the configuration returned is not the content of the reply");
+			}
+		} else {
+			if (conf != (KSI_Config *)(uintptr_t)0x5151) K.fail("C06", "output-touched-on-error", "blocking-config", "the configuration call failed (0x%x) but wrote to the output pointer", res);
+			if (sr && sr->meta.behav == B_HONEST && sr->meta.honest && sr->reply_info.has_conf && e.fault == 0 && tamper_bit < 0 && cfg.pdu_ver == 2 &&
+			    (e.reply_delay_ms == 0 || transfer_to == 0 || e.reply_delay_ms < transfer_to * 1000) && transfer_to != 0)
+				K.fail("C06", "honest-configuration-rejected", sdk::err_name(res), "the configuration call failed with 0x%x although the server replied honestly and nothing was disturbed", res);
+		}
+	}
+
 	void op_sweep(const run::Op &op) {
 		// C06: flip single bits of one reply (a stride of the positions; the phases of all runs together cover every bit)
 		run::Op base = op;
-		bool ext = op.arg(12) % 2 == 1;   // sweep an extender reply instead of an aggregator reply
-		base.k = ext ? "EXTEND" : "SIGN";
+		bool ext = op.arg(12) % 3 == 1;   // sweep an extender reply instead of an aggregator reply
+		bool conf = op.arg(12) % 3 == 2 && bw.aggr.pdu_ver == 2; // ... or the reply to a configuration request
+		base.k = conf ? "CONFIG" : ext ? "EXTEND" : "SIGN";
 		if (ext) { base.a.resize(10); base.a[1] = op.arg(1) % 3 == 0 ? 0 : 1; base.a[8] = 1; base.a[9] = 0; }
 		size_t stride = (size_t)std::max<int64_t>(1, op.arg(10, 13)), phase = (size_t)op.arg(11) % stride;
 		size_t approx_bits = 8 * 1400;
 		for (size_t bit = phase; bit < approx_bits; bit += stride) {
-			if (ext) op_extend(base, (int)bit); else op_sign(base, (int)bit);
+			if (conf) op_config(base, (int)bit); else if (ext) op_extend(base, (int)bit); else op_sign(base, (int)bit);
 			if (K.failed()) return;
 			if (!bw.served.empty() && !bw.served.back().reply.empty() && bit + stride >= bw.served.back().reply.size() * 8) break;
 		}
@@ -340,6 +433,7 @@ struct WorldSim {
 		else if (op.k == "SIGNSHA1") op_sign_deprecated();
 		else if (op.k == "EXTEND") op_extend(op);
 		else if (op.k == "SWEEP") op_sweep(op);
+		else if (op.k == "CONFIG") op_config(op);
 		else if (op.k == "TICK") { K.advance(std::max<int64_t>(1, op.arg(0))); K.ev("TICK %lld", (long long)op.arg(0)); }
 		uint64_t h = mix(pool.size(), bw.served.size());
 		states.push_back(mix(h, K.violations.size()));
@@ -360,6 +454,11 @@ struct WorldSim {
 		return rr;
 	}
 };
+
+static int w_conf_cb(KSI_CTX *, KSI_Config *c) {
+	if (g_wcur) g_wcur->conf_events.push_back({K.ev("conf-callback"), read_config(c)});
+	return KSI_OK;
+}
 
 struct WorldEngine : run::Engine {
 	const char *name() const override { return "world"; }
@@ -394,7 +493,8 @@ struct WorldEngine : run::Engine {
 			// tamper sweeps: every bit position of one reply, split over `stride` phases
 			p.cfg["adv"] = 1; p.cfg["faults"] = 0;
 			run::Op op; op.k = "SWEEP";
-			op.a = {(int64_t)g.below(20), (int64_t)g.below(3), 0, (int64_t)g.below(1 << 30), 0, 0, 0, 0, 0, 0, 29, (int64_t)g.below(29), (int64_t)g.below(2)};
+			op.a = {(int64_t)g.below(20), (int64_t)g.below(3), 0, (int64_t)g.below(1 << 30), 0, 0, 0, 0, 0, 0, 29, (int64_t)g.below(29), (int64_t)g.below(3)};
+			p.cfg["conf_cb"] = (int64_t)g.below(2);
 			p.ops.push_back(op);
 			return p;
 		}
@@ -403,6 +503,11 @@ struct WorldEngine : run::Engine {
 			int r = (int)g.below(100);
 			bool want_ext = property == "C08" ? r < 75 : property == "C07" ? r < 10 : r < 35;
 			if (r >= 97) { op.k = "SIGNSHA1"; }
+			else if (r >= 84 && r < 90) {
+				op.k = "CONFIG";
+				op.a = {(int64_t)g.below(2), 0};
+				env_args(op.a);
+			}
 			else if (r >= 90) { op.k = "TICK"; op.a = {g.pickl<int64_t>({100, 1000, 5000})}; }
 			else if (want_ext) {
 				op.k = "EXTEND";
@@ -419,6 +524,7 @@ struct WorldEngine : run::Engine {
 			}
 			p.ops.push_back(op);
 		}
+		p.cfg["conf_cb"] = (int64_t)g.below(2);
 		return p;
 	}
 	run::RunResult execute(const run::Plan &p, bool trace) override {
